@@ -12,43 +12,43 @@ COMMON_ASSUMPTIONS = [
 ]
 
 TABLE = {
-    'C04': dict(kinds=[('c04', 260, 6000)], prefixes=['C04_'], invariants=['Inv_C04_Injective'],
+    'C04': dict(kinds=[('c04', 260, 2500)], prefixes=['C04_'], invariants=['Inv_C04_Injective'],
                 rule='histories fit -> transform(training frame) -> JSON reload -> transform(training frame) on every discretizer / carver class '
                      '(seeded random specs: 1-3 features, quantitative styles incl. boundaries equal to 4 significant digits, 1e15, 1e-9, float32; qualitative '
                      'str / numeric-looking str / int / integer-valued float / mixed; ordinal rankings incl. never-observed values; dropna x output_dtype); '
                      'TLC recomputes for every row the group of values_orders holding the value and its label and compares with the output. '
                      'Non-trivial: a history with at least one successful transform; distinct by event hash.'),
-    'C05': dict(kinds=[('c05', 260, 6000)], prefixes=['C05_'], invariants=['Inv_C05_LabelOrReject'],
+    'C05': dict(kinds=[('c05', 260, 2500)], prefixes=['C05_'], invariants=['Inv_C05_LabelOrReject'],
                 rule='histories fit -> transforms of derived frames: every boundary and its nextafter neighbours, below / above the range, +-1.7e308, '
                      'unseen categories (str, int, float, numeric-looking), a missing value injected where none was seen, empty and single-row frames; '
                      'TLC decides from the observed values_orders whether the frame must be rejected (and which feature must be named) or which label '
                      'every cell must get. Non-trivial: a history with at least 3 probe transforms.'),
-    'C06': dict(kinds=[('c06', 220, 5000)], prefixes=['C06_'], invariants=['Act_C07_C19'],
+    'C06': dict(kinds=[('c06', 220, 2000)], prefixes=['C06_'], invariants=['Act_C07_C19'],
                 rule='histories fit -> (optional manual edits) -> json.dumps(to_json()) -> load_carver / load_discretizer -> the same probe frames on the '
                      'original and on the reloaded object; TLC compares outcome and every output cell of the pair (shared label table), the harness '
                      'compares summary() and the re-serialised JSON (normalised for dict / feature-list order). Non-trivial: reload succeeded and at '
                      'least 2 frame pairs compared.'),
-    'C07': dict(kinds=[('c07', 160, 4000)], prefixes=['C07_'], invariants=['Act_C07_C19'],
+    'C07': dict(kinds=[('c07', 160, 1500)], prefixes=['C07_'], invariants=['Act_C07_C19'],
                 rule='histories: object A fit_transform(X, y); object B fit(X, y) then transform(X) (outputs compared cell by cell); then on A a shuffled '
                      'sequence of transforms of X, a row subset, a permutation, a re-indexed copy (offset / shuffled / string index), probe frames and '
                      'X again; after every call TLC checks the output row by row against the row-wise definition, that the projected state is unchanged, '
                      'the harness that inputs (copy=True), index, columns and non-feature columns are unchanged. Non-trivial: at least 5 transforms.'),
-    'C08': dict(kinds=[('c08', 300, 8000), ('c04', 120, 3000)], prefixes=['C08_', 'unique_leaders', 'keys_are_leaders', 'disjoint', 'nodup_members', 'leader_in_own'],
+    'C08': dict(kinds=[('c08', 300, 3000), ('c04', 120, 1000)], prefixes=['C08_', 'unique_leaders', 'keys_are_leaders', 'disjoint', 'nodup_members', 'leader_in_own'],
                 invariants=['Inv_C08_WellFormed'],
                 rule='fits of every class on degenerate shapes (constant, all-missing, near-unique, many equally rare discrete values, one value plus missing, '
                      'tiny samples n=2..10, spikes) and on the ordinary random specs; TLC checks outcome in {ok, AssertionError}, that every values_orders '
                      'entry is a well-formed ordered partition (GL.tla) covering every training value, the harness that all per-feature attributes refer to the '
                      'kept features and that dropped columns are left bit-identical. Non-trivial: any fit that ran; distinct by event hash.'),
-    'C16': dict(kinds=[('c16', 220, 5000)], prefixes=['C16_'], invariants=['Inv_C16_hist'],
+    'C16': dict(kinds=[('c16', 220, 2000)], prefixes=['C16_'], invariants=['Inv_C16_hist'],
                 rule='histories fit -> summary() -> summary(f) for every kept feature (-> reload -> summary()); TLC checks the listed features, that '
                      'qualitative (label, content) rows partition the known string values with the label transform outputs, one row per quantitative group, '
                      'missing values shown in the group they were merged into; history() clauses come from the carver traces (CarverTrace.tla).'),
-    'C17': dict(kinds=[('c17', 220, 5000)], prefixes=['C17_'], invariants=['Inv_C17_Edit'],
+    'C17': dict(kinds=[('c17', 220, 2000)], prefixes=['C17_'], invariants=['Inv_C17_Edit'],
                 rule='histories fit -> 1..3 valid update_discretizer edits (adjacent groups for ordered features, any groups for categorical ones, missing '
                      'values into an existing group, renames / threshold moves) each followed by transform(training frame), summary() and JSON reload + '
                      'transform; TLC recomputes the edited values_orders with GL.tla operators (UpdateVo) and compares, checks that other features are '
                      'untouched, and judges the transform / summary / reload that follow with the same clauses as C04 / C16 / C06.'),
-    'C19': dict(kinds=[('c19', 220, 5000)], prefixes=['C19_'], invariants=['Act_C07_C19'],
+    'C19': dict(kinds=[('c19', 220, 2000)], prefixes=['C19_'], invariants=['Act_C07_C19'],
                 rule='histories on BinaryCarver, ContinuousCarver, MulticlassCarver, Discretizer, QualitativeDiscretizer, QuantitativeDiscretizer: malformed '
                      'calls (NaN in y, wrong class count, y indexed differently, non-DataFrame X, non-Series y, missing column in X / X_dev, feature both '
                      'quantitative and qualitative, strings in a quantitative feature, value absent from an ordinal ranking, unsupported sort_by, second fit, '
@@ -84,7 +84,7 @@ def replay_behaviours(ctx: Ctx, prefixes):
     from ..core import use_repo, Violation, jhash
     use_repo()
     from ..drivers import est_replay
-    num = 150 if ctx.tier == 'quick' else 6000
+    num = 150 if ctx.tier == 'quick' else 2000
     nb, ns, out = est_replay.run(num, 10, ctx.seed + 1)
     ctx.traces += nb
     ctx.evaluations += ns
